@@ -111,6 +111,13 @@ func checkC04(c *Check) {
 					}
 				})
 				c.Cond(okSel, key+":implementor-selected", p.Pos(next.Pos()), "the scan yields the value of an entry whose key Implements(t)", "the scan can yield an entry whose type does not implement the requested interface")
+				// converse: an entry is passed over only because its key does not implement t
+				implNo := edgesWhere(val, cBool(vCall("(reflect.Type).Implements", vExtract(1, vIs(next)), tP)), false)
+				if in, path := (Query{Fn: val, Cut: implNo}).After(next, isInstr(next)); in != nil {
+					c.Bad(key+":implementor-not-filtered", p.Pos(next.Pos()), "an entry of the table can be passed over for a reason other than `!key.Implements(t)` (an extra filter in front of Implements): a registered implementor is not found", blockPath(path))
+				} else {
+					c.OK(key+":implementor-not-filtered", p.Pos(next.Pos()), "the scan moves on to the next entry only on the !Implements(t) edge", numInstrs(val))
+				}
 			}
 			if parentCall == nil {
 				c.Bad(key+":parent", p.FuncPos(val), "the parent scope is never consulted")
